@@ -1,9 +1,219 @@
-//! stub
-use super::Ctx;
-use crate::engine::evidence::{Case, Report, Verdict};
-pub fn run(_ctx: &Ctx, _rep: &mut Report) {
-    crate::engine::monitor::machinery_fail("not implemented");
+//! C13 - flush, straight and wheel predicates agree with the hand's actual category.
+//!
+//! Space: all 2,598,960 five-card hands x all 120 slot orders (the whole domain), every predicate, the deprecated
+//! free functions, and agreement with the category obtained by ranking the same hand.
+//! Oracle: suits all equal; ranks distinct and consecutive or {A,5,4,3,2}; both; wheel - from the rules.
+use super::{confirm, oracle, sample_json, Ctx};
+use crate::engine::enumerate::{par_parts, permutations};
+use crate::engine::evidence::{Acc, Case, Report, Verdict};
+use crate::engine::monitor::{self, guard};
+use crate::oracle::cards::{deck, show_words};
+use crate::oracle::poker::{key_cat, CAT_NAME, FLUSH, SF, STRAIGHT};
+use ckc_rs::cards::five::Five;
+use ckc_rs::cards::HandRanker;
+use ckc_rs::hand_rank::HandRankName;
+use std::time::Instant;
+
+pub const OBS: [&str; 9] = ["is_flush", "is_straight", "is_straight_flush", "is_wheel", "evaluate.is_flush", "or_rank_bits", "evaluate.or_rank_bits", "and_bits", "category-agreement"];
+
+struct Model {
+    flush: bool,
+    straight: bool,
+    wheel: bool,
+    rank_mask: u32,
+    and_bits: u32,
+    distinct_ranks: bool,
+    cat: u8,
 }
-pub fn judge(_case: &Case) -> Verdict {
-    Verdict::NotJudged("not implemented".into())
+
+fn model(w: &[u32; 5]) -> Option<Model> {
+    let cards = super::c01::distinct_cards(w)?;
+    let flush = cards.iter().all(|c| c.suit() == cards[0].suit());
+    let mut mask = 0u32;
+    for c in &cards {
+        mask |= 1 << c.rank();
+    }
+    let distinct = mask.count_ones() == 5;
+    let wheel = mask == 0b1_0000_0000_1111;
+    let consecutive = distinct && (mask >> mask.trailing_zeros()) == 0b11111;
+    let straight = consecutive || wheel;
+    let key = oracle().key5(&[cards[0], cards[1], cards[2], cards[3], cards[4]]);
+    Some(Model { flush, straight, wheel, rank_mask: mask, and_bits: w.iter().fold(u32::MAX, |a, x| a & x), distinct_ranks: distinct, cat: key_cat(key) })
+}
+
+#[allow(deprecated)]
+fn observe(what: &str, arr: [u32; 5]) -> Option<(String, String)> {
+    // returns (observed, expected) as strings; None for unknown
+    let m = model(&arr)?;
+    let f = Five::from(arr);
+    Some(match what {
+        "is_flush" => (f.is_flush().to_string(), m.flush.to_string()),
+        "is_straight" => (f.is_straight().to_string(), m.straight.to_string()),
+        "is_straight_flush" => (f.is_straight_flush().to_string(), (m.flush && m.straight).to_string()),
+        "is_wheel" => (f.is_wheel().to_string(), m.wheel.to_string()),
+        "evaluate.is_flush" => (ckc_rs::evaluate::is_flush(arr).to_string(), m.flush.to_string()),
+        "or_rank_bits" => (format!("{:#b}", f.or_rank_bits()), format!("{:#b}", m.rank_mask)),
+        "evaluate.or_rank_bits" => (format!("{:#b}", ckc_rs::evaluate::or_rank_bits(arr)), format!("{:#b}", m.rank_mask)),
+        "and_bits" => (format!("{:#x}", f.and_bits()), format!("{:#x}", m.and_bits)),
+        "category-agreement" => {
+            // the predicates must describe the category obtained by ranking the same hand
+            let name = f.hand_rank().name;
+            let sf = f.is_straight_flush();
+            let fl = f.is_flush();
+            let st = f.is_straight();
+            let implied = if sf {
+                "StraightFlush"
+            } else if fl {
+                "Flush"
+            } else if st {
+                "Straight"
+            } else {
+                "neither"
+            };
+            let actual = match name {
+                HandRankName::StraightFlush => "StraightFlush",
+                HandRankName::Flush => "Flush",
+                HandRankName::Straight => "Straight",
+                _ => "neither",
+            };
+            (format!("predicates imply {} (flush={} straight={} sf={})", implied, fl, st, sf), format!("predicates imply {} (ranked category {:?})", actual, name))
+        }
+        _ => return None,
+    })
+}
+
+/// Case kind = one of OBS; words = five card words.
+pub fn judge(case: &Case) -> Verdict {
+    let w = case.w32s();
+    if w.len() != 5 {
+        return Verdict::NotJudged("five words".into());
+    }
+    let arr = [w[0], w[1], w[2], w[3], w[4]];
+    let m = match model(&arr) {
+        Some(m) => m,
+        None => return Verdict::NotJudged("not five distinct real cards: outside C13's domain".into()),
+    };
+    match guard(|| observe(&case.kind, arr)) {
+        Err(p) => Verdict::Violated { class: format!("panic:{}", case.kind), expected: "a boolean".into(), observed: format!("panic: {}", p) },
+        Ok(None) => Verdict::NotJudged("unknown observation".into()),
+        Ok(Some((obs, exp))) if obs != exp => Verdict::Violated {
+            class: format!("{}:reported-{}:{}", case.kind, if obs.len() < 6 { obs.clone() } else { "wrong".into() }, if m.distinct_ranks { "five-distinct-ranks" } else { "repeated-rank" }),
+            expected: format!("{} for {} ({})", exp, show_words(&w), CAT_NAME[m.cat as usize]),
+            observed: obs,
+        },
+        Ok(Some(_)) => Verdict::Holds,
+    }
+}
+
+pub fn run(ctx: &Ctx, rep: &mut Report) {
+    let o = oracle();
+    let d = deck();
+    let perms: Vec<[usize; 5]> = permutations(5).into_iter().map(|p| [p[0], p[1], p[2], p[3], p[4]]).collect();
+    let mut parts = Vec::new();
+    for a in 0..48usize {
+        for b in a + 1..49 {
+            parts.push((a, b));
+        }
+    }
+    let kind = monitor::kind_id("five.predicates");
+    let t0 = Instant::now();
+    // hist: [cat*8 + pred*2 + value] for pred in flush, straight, sf, wheel (model side)
+    let accs = par_parts(parts.len(), |pi| {
+        let (a, b) = parts[pi];
+        let mut acc = Acc::new(9 * 8);
+        for c in b + 1..50 {
+            for dd in c + 1..51 {
+                for e in dd + 1..52 {
+                    let cs = [d[a], d[b], d[c], d[dd], d[e]];
+                    let w = [cs[0].word(), cs[1].word(), cs[2].word(), cs[3].word(), cs[4].word()];
+                    let cat = key_cat(o.key5(&cs));
+                    let flush = cat == SF || cat == FLUSH;
+                    let straight = cat == SF || cat == STRAIGHT;
+                    let mut mask = 0u32;
+                    for x in &cs {
+                        mask |= 1 << x.rank();
+                    }
+                    let wheel = straight && mask == 0b1_0000_0000_1111;
+                    let andb = w.iter().fold(u32::MAX, |x, y| x & y);
+                    acc.hist[cat as usize * 8 + flush as usize] += 1;
+                    acc.hist[cat as usize * 8 + 2 + straight as usize] += 1;
+                    acc.hist[cat as usize * 8 + 4 + (flush && straight) as usize] += 1;
+                    acc.hist[cat as usize * 8 + 6 + wheel as usize] += 1;
+                    monitor::beat(kind, &[w[0] as u64, w[1] as u64, w[2] as u64, w[3] as u64, w[4] as u64]);
+                    #[allow(deprecated)]
+                    let r = guard(|| {
+                        let mut bad = false;
+                        for p in &perms {
+                            let arr = [w[p[0]], w[p[1]], w[p[2]], w[p[3]], w[p[4]]];
+                            let f = Five::from(arr);
+                            bad |= f.is_flush() != flush;
+                            bad |= f.is_straight() != straight;
+                            bad |= f.is_straight_flush() != (cat == SF);
+                            bad |= f.is_wheel() != wheel;
+                            bad |= ckc_rs::evaluate::is_flush(arr) != flush;
+                            bad |= f.or_rank_bits() != mask;
+                            bad |= ckc_rs::evaluate::or_rank_bits(arr) != mask as usize;
+                            bad |= f.and_bits() != andb;
+                        }
+                        // agreement with the ranked category (rank is order independent by C01; one order here, all in C01)
+                        let name = Five::from(w).hand_rank().name;
+                        bad |= (name == HandRankName::StraightFlush) != (cat == SF) || (name == HandRankName::Flush) != (cat == FLUSH) || (name == HandRankName::Straight) != (cat == STRAIGHT);
+                        bad
+                    });
+                    acc.cases += 120;
+                    acc.calls += 120 * 8 + 1;
+                    if cat <= 4 || mask.count_ones() < 5 {
+                        acc.nontrivial += 120;
+                    }
+                    if !matches!(r, Ok(false)) {
+                        if acc.viol_count > 2000 {
+                            acc.viol_count += 1;
+                            continue;
+                        }
+                        let mut found = false;
+                        for p in &perms {
+                            let arr = [w[p[0]], w[p[1]], w[p[2]], w[p[3]], w[p[4]]];
+                            for ob in OBS {
+                                if let Some(v) = confirm(judge, Case::w32(ob, &arr)) {
+                                    found = true;
+                                    acc.violate(v);
+                                }
+                            }
+                        }
+                        if !found {
+                            monitor::machinery_fail(&format!("C13 fast path mismatch on {:?} not reproduced", w));
+                        }
+                    }
+                    if acc.samples.is_empty() && (pi as u64 + ctx.seed) % 401 == 0 {
+                        let f = Five::from(w);
+                        acc.samples.push(sample_json("five predicates x 120 orders", &show_words(&w), &format!("flush={} straight={} straight_flush={} wheel={} category={}", f.is_flush(), f.is_straight(), f.is_straight_flush(), f.is_wheel(), CAT_NAME[cat as usize])));
+                    }
+                }
+            }
+        }
+        acc
+    });
+    let acc = Acc::merged(accs);
+    rep.add_space("5H x 120 orders x 8 observations + category agreement", &acc, t0, "every five-card hand in every slot order");
+    let preds = ["flush", "straight", "straight_flush", "wheel"];
+    for cat in 0..9 {
+        for (pi, p) in preds.iter().enumerate() {
+            for val in 0..2 {
+                let n = acc.hist[cat * 8 + pi * 2 + val];
+                if n > 0 {
+                    rep.hist_add(&format!("{}:{}={}", CAT_NAME[cat], p, val == 1), n);
+                }
+            }
+        }
+    }
+    // vacuity: each predicate seen true and false overall; negatives exist among repeated-rank categories
+    for (pi, p) in preds.iter().enumerate() {
+        let t: u64 = (0..9).map(|c| acc.hist[c * 8 + pi * 2 + 1]).sum();
+        let f: u64 = (0..9).map(|c| acc.hist[c * 8 + pi * 2]).sum();
+        rep.guard(&format!("predicate {} expected both true and false in the space", p), t > 0 && f > 0, format!("true on {} hands, false on {}", t, f));
+    }
+    let paired_negatives: u64 = [1usize, 2, 5, 6, 7].iter().map(|c| acc.hist[c * 8 + 2]).sum();
+    rep.guard("straight=false expected on repeated-rank hands (the case no test contains)", paired_negatives == 624 + 3744 + 54912 + 123552 + 1098240, format!("{}", paired_negatives));
+    rep.rule = "distinct ordered five-card arrays; non-trivial = hands that are a flush or straight, or contain a repeated rank (where the span test and the distinct-rank test differ)".into();
+    rep.bound = "none: whole domain".into();
 }
